@@ -80,9 +80,13 @@ SimChecks(sim, o) ==
 
 \* ---- deposit ----------------------------------------------------------------------------------------------------
 \* the mint clauses are Stable!MintChecks (literal clause + rounding-dust clause), in raw base units
-ProvideChecks(s, d, curveMint, minted, t) ==
+ProvideChecks(s, d, curveMint, minted, hasSlip, slip, t) ==
   LET amp == AmpNow(s) IN
-  << <<"C04.provide.reserves-balances-and-supply-grow-by-the-deposit",
+  << <<"C15.trio.deposit.tolerance<=1", hasSlip => slip \preceq DEC>>,
+     <<"C15.trio.deposit.bound",
+        (hasSlip /\ slip \preceq DEC) =>
+          StSlipBound((s.res[1] ++ s.res[2]) ++ s.res[3], s.S, (d[1] ++ d[2]) ++ d[3], minted, slip)>>,
+     <<"C04.provide.reserves-balances-and-supply-grow-by-the-deposit",
         t.res = [n \in Idx |-> s.res[n] ++ d[n]] /\ t.bal = [n \in Idx |-> s.bal[n] ++ d[n]]
         /\ t.S = s.S ++ minted /\ t.fee = s.fee>>,
      <<"C04.provide.mint=curve-mint", IsNum(curveMint) /\ minted = curveMint>>,
